@@ -97,7 +97,9 @@ def run(ctx):
     if not ctx.proof_gate(THEOREMS, ['ScaledProofs.vo', 'StructProofs.vo']):
         return
     n = 60 if ctx.tier == 'quick' else 400
-    specs = ctx.specs(util.corpus(ctx.prop) + gen.gen_many(ctx.seed, n, CFG, 'c16_'))
+    # structures with an own life time covering the horizon, wrapping assets that end (start) inside it
+    sw = gen.gen_many(ctx.seed, n // 3, dict(CFG, p_struct_window=1.0, p_struct_inside=0.0, p_window_inner=0.8, kinds={'StructuredAsset': 4, 'SimpleContract': 1}), 'c16sw_')
+    specs = ctx.specs(util.corpus(ctx.prop) + gen.gen_many(ctx.seed, n, CFG, 'c16_') + sw)
     base = [sp for sp in specs if '+' not in sp['id']]
     jobs = []     # (kind, base index, spec, extra)
     for i, sp in enumerate(base):
